@@ -82,7 +82,7 @@ def broad_cases(draw, max_len=12, allow_nullable=True):
 
     def tweak(node, top=True):
         # item-level feature injection (capture definitions only on the executed-exactly-once spine, cf. C05)
-        choice = draw(st.sampled_from(["keep", "keep", "keep", "any-mn", "any-op", "extra-ops", "icap", "ocap", "deref", "shipped", "min0", "op-not"]))
+        choice = draw(st.sampled_from(["keep", "keep", "keep", "any-mn", "any-op", "extra-ops", "icap", "ocap", "deref", "shipped", "min0", "op-not", "op-not", "op-not"]))
         if choice == "keep":
             return node
         name = node if not isinstance(node, dict) else list(node)[0]
@@ -109,7 +109,19 @@ def broad_cases(draw, max_len=12, allow_nullable=True):
             # an operand-level $not at any position up to one past the described operands
             feats.add("operand-not")
             k = draw(st.integers(0, len(ops)))
-            ops.insert(k, {"$not": [draw(st.sampled_from(["zz", "%rsp", "0x77", "rax"]))]})
+            neg = {"$not": [draw(st.sampled_from(["zz", "%rsp", "0x77", "rax"]))]}
+            how = draw(st.sampled_from(["insert", "replace", "replace-and-skip", "replace-and-skip"]))
+            if how == "insert" or k >= len(ops):
+                ops.insert(k, neg)
+            elif how == "replace":
+                ops[k] = neg  # the descriptions after it stay aligned with their operands
+            else:
+                # the description after the $not is that of the operand one further on: only a $not that swallows two
+                # operands would let it match
+                ops[k] = neg
+                if k + 1 < len(ops):
+                    del ops[k + 1]
+                    feats.add("operand-not-then-later-operand")
             return {name: ops}
         if choice == "icap" and cap_count[0] < 3 and top:
             cap_count[0] += 1
